@@ -90,6 +90,21 @@ func (c *Constraints) without(constraint interface{}) *Constraints {
 	return copy
 }
 
+// only gives a copy of the constraints that holds just those of the given kind
+func (c *Constraints) only(kind interface{}) *Constraints {
+	if c == nil {
+		return nil
+	}
+	copy := &Constraints{}
+	for _, e := range c.entries {
+		if reflect.TypeOf(e.constraint) == reflect.TypeOf(kind) {
+			copy.entries = append(copy.entries, e)
+		}
+	}
+	copy.compile()
+	return copy
+}
+
 func NewConstraints(parent *Constraints) *Constraints {
 	c := &Constraints{}
 	c.entries = make([]*entry, len(parent.entries))
